@@ -326,7 +326,7 @@ class VQESolver:
 
         return energy
 
-    def operator_expectation(self, operator, var_params=None, n_active_mos=None, n_active_electrons=None, n_active_sos=None, spin=None, ref_state=Circuit()):
+    def operator_expectation(self, operator, var_params=None, n_active_mos=None, n_active_electrons=None, n_active_sos=None, spin=None, ref_state=None):
         """Obtains the operator expectation value of a given operator.
 
            Args:
@@ -349,7 +349,8 @@ class VQESolver:
                     mapping used is scbk and vqe_solver was initiated using a
                     QubitHamiltonian.
                 spin (int): Spin (n_alpha - n_beta)
-                ref_state (Circuit): A reference state preparation circuit
+                ref_state (Circuit): A reference state preparation circuit. Default: the
+                    reference circuit of the solver (ref_state option), as in energy_estimation.
 
            Returns:
                 float: operator expectation value computed by VQE using the
@@ -357,6 +358,8 @@ class VQESolver:
         """
         if var_params is None:
             var_params = self.ansatz.var_params
+        if ref_state is None:
+            ref_state = self.reference_circuit if self.ref_state is not None else Circuit()
 
         # Save our current target hamiltonian
         tmp_hamiltonian = self.qubit_hamiltonian
